@@ -37,7 +37,9 @@ type CachedLoader struct {
 }
 
 func (l *CachedLoader) Load(uri, parentURI string) (*Schema, error) {
-	if schema, ok := l.cache[uri]; ok {
+	key := cacheKey(uri, parentURI)
+
+	if schema, ok := l.cache[key]; ok {
 		return schema, nil
 	}
 
@@ -46,9 +48,25 @@ func (l *CachedLoader) Load(uri, parentURI string) (*Schema, error) {
 		return nil, errors.Join(ErrCannotLoadSchema, err)
 	}
 
-	l.cache[uri] = schema
+	l.cache[key] = schema
 
 	return schema, nil
+}
+
+// cacheKey tells apart equal references that name different files: a relative
+// file reference is relative to the document it appears in, so the same text
+// from documents in two directories must not share a cache entry.
+func cacheKey(uri, parentURI string) string {
+	if r, err := GetRefType(uri); err != nil || r != RefTypeFile {
+		return uri
+	}
+
+	fileName := strings.TrimPrefix(uri, "file://")
+	if filepath.IsAbs(fileName) {
+		return uri
+	}
+
+	return filepath.Join(filepath.Dir(parentURI), fileName)
 }
 
 func NewFileLoader(resolveExtensions, yamlExtensions []string) *FileLoader {
